@@ -26,6 +26,7 @@ from mashumaro.core.meta.helpers import (
     get_literal_values,
     get_type_origin,
     get_type_var_default,
+    get_underlying_class,
     is_final,
     is_generic,
     is_literal,
@@ -347,8 +348,7 @@ def pack_union(
         for packer in packers:
             packer_arg_type_names = []
             for packer_arg_type in packer_arg_types[packer]:
-                if is_generic(packer_arg_type):
-                    packer_arg_type = get_type_origin(packer_arg_type)
+                packer_arg_type = get_underlying_class(packer_arg_type)
                 packer_arg_type_name = spec.builder.ensure_object_imported(
                     packer_arg_type, clean_id(type_name(packer_arg_type))
                 )
